@@ -340,7 +340,7 @@ class Walk:
     # ---------------------------------------------------------------- directed recipes
     DISCARDS = ["reset-hard", "checkout-dashdash", "checkout-path", "checkout-f", "restore", "restore-dir", "checkout-dir-slash",
                 "stash-drop", "stash-pop", "stash-path-pop", "stash-dir-pop", "rm-recreate", "mv-back", "reset-mixed", "clean-edit",
-                "switch-f", "stash-apply-drop"]
+                "switch-f", "stash-apply-drop", "checkout-m"]
 
     def directed_edit(self, who, p, lines, new_texts=()):
         """write `lines` to p as `who` (agent protocol for sessions) and log it like op_edit does"""
@@ -384,8 +384,14 @@ class Walk:
             if pending_via == "edited":
                 # ... and the person types above the pending lines before the operation (no checkpoint in between):
                 # whatever reads INITIAL now has to carry its line numbers over through the recorded content
-                for p in (f, g):
-                    self.directed_edit("human", p, [self.fresh("human")] + self.read_lines(p))
+                # (at the top of one file, directly above the pending block in the other: a claim that is applied by bare
+                #  line number afterwards lands on the person's new line only in the second shape)
+                for n_, p in enumerate((f, g)):
+                    ls_ = self.read_lines(p)
+                    at = 0 if n_ == 0 else pos[p]
+                    self.directed_edit("human", p, ls_[:at] + [self.fresh("human")] + ls_[at:])
+                    if at:
+                        pos[p] += 1
         elif pending_via == "staged":
             # the AI lines are staged, then the person edits further: a path checkout / restore brings the STAGED
             # version (with the AI lines) back (replay of Props/C03.lean regression_path_checkout_keeps_staged_ai_line)
@@ -426,6 +432,11 @@ class Walk:
         elif x == "switch-f":
             self.git("switch", "-q", "-c", "side"); self.git("switch", "-q", "-f", "main")
         elif x == "stash-apply-drop": self.git("stash"); self.git("stash", "apply"); self.git("stash", "drop")
+        elif x == "checkout-m":
+            # the uncommitted work (and its pending attribution) is carried to another branch through a merge:
+            # the working log is read WITHOUT a checkpoint first and written back as INITIAL of the other branch
+            r.plain_git("branch", "other-m", self.commits[0])
+            self.git("checkout", "-q", "-m", "other-m")
         # the person types other text where the AI lines were (in both files)
         for p in (f, g):
             ls = self.read_lines(p)
